@@ -18,7 +18,7 @@ func init() {
 	register(&Property{
 		Meta: report.Meta{
 			Property:    "C20",
-			Explanation: "May-write effect analysis (engine E4): taint is propagated, flow- and context-insensitively over the SSA form and the in-module call graph (static callees, VTA targets for interface calls and function values, closures through their bindings, results through return summaries, external results as possible aliases unless the callee is in the returns-fresh table), from the receivers of every exported method of the immutable types (delegation.Token, invocation.Token, args.ReadOnly, meta.ReadOnly, policy.Policy and the statement structs, selector.Selector, container.Reader, did.DID, command.Command). Reported: every store through a tainted address, map update on a tainted map, append/copy/clear/delete with a tainted first operand, call of an external in-place mutator (sort.*, slices.Sort*, ...) on a tainted operand, and every store to a package-level variable outside init / sync.Once. Writes to objects allocated in the same function are exempt. Race-freedom is concluded from write-freedom; schedules as such are not explored. A canary package with three seeded writes and one clean method is analysed on every run and must yield exactly the three findings. (R4) stores into Token fields of type *args.Args / *meta.Meta take their value from a call or a field load, not from a parameter or free variable (parameters of unexported helpers are followed to the call sites); MapUpdate values in Clone are range / lookup values or constructor calls over bytes.Clone / slices.Clone / append(nil, ...). (R2) calls of Add / Store / Swap / CompareAndSwap of sync/atomic and of the mutating methods of sync.Map whose receiver is (a field of) a package-level variable of the module, and MapUpdate on a package-level map, count as stores to package-level state.",
+			Explanation: "May-write effect analysis (engine E4): taint is propagated, flow- and context-insensitively over the SSA form and the in-module call graph (static callees, VTA targets for interface calls and function values, closures through their bindings, results through return summaries, external results as possible aliases unless the callee is in the returns-fresh table), from the receivers of every exported method of the immutable types (delegation.Token, invocation.Token, args.ReadOnly, meta.ReadOnly, policy.Policy and the statement structs, selector.Selector, container.Reader, did.DID, command.Command). Reported: every store through a tainted address, map update on a tainted map, append/copy/clear/delete with a tainted first operand, call of an external in-place mutator (sort.*, slices.Sort*, ...) on a tainted operand, and every store to a package-level variable outside init / sync.Once. Writes to objects allocated in the same function are exempt. Race-freedom is concluded from write-freedom; schedules as such are not explored. A canary package with three seeded writes and one clean method is analysed on every run and must yield exactly the three findings. (R4) stores into Token fields of type *args.Args / *meta.Meta take their value from a call or a field load, not from a parameter or free variable (parameters of unexported helpers are followed to the call sites); MapUpdate values in Clone are range / lookup values or constructor calls over bytes.Clone / slices.Clone / append(nil, ...). (R2) calls of Add / Store / Swap / CompareAndSwap of sync/atomic and of the mutating methods of sync.Map whose receiver is (a field of) a package-level variable of the module, and MapUpdate on a package-level map, count as stores to package-level state. (R2) a Store whose address is a field / element chain rooted at a package-level variable of the module, outside package initialisers, counts as a store to package-level state.",
 			Assumptions: []string{"external functions that receive token state and are not in the mutator table (qp.*, printer.Sprint, ipld.DeepEqual, bindnode.Wrap, fmt, strings, go-ipld-prime node methods) do not write it", "go-ipld-prime nodes are immutable"},
 			Trusted:     []string{"golang.org/x/tools/go/ssa + callgraph/vta v0.29.0", "the frozen mutator / returns-fresh tables in internal/effects"},
 			NotDecided:  []string{"interleavings as such (race-freedom is concluded from write-freedom)", "writes inside third-party libraries"},
